@@ -131,13 +131,45 @@ def alphabet(req):
     sig = {}
     size = {}
     hi = req.get("max_cp", 0x10FFFF)
-    for cp in range(hi + 1):
+
+    def maxcp(spec):
+        if spec[0] in ("LITERAL", "NOT_LITERAL"):
+            return spec[1]
+        if spec[0] == "IN":
+            m = 0
+            for o, a in spec[1]:
+                if o == "LITERAL":
+                    m = max(m, a)
+                elif o == "RANGE":
+                    m = max(m, a[1])
+            return m
+        return 0
+    bound = max([maxcp(s) for s in sets] + [127]) + 1
+    # below `bound`: every code point evaluated against every set.  At and above it no literal or range endpoint
+    # occurs, so membership depends only on the three Unicode categories: one full evaluation per category combination
+    for cp in range(min(bound, hi + 1)):
         ch = chr(cp)
         k = tuple(member(ch, s) for s in sets)
         if k not in sig:
             sig[k] = cp
             size[k] = 0
         size[k] += 1
+    combo = {}
+    for cp in range(bound, hi + 1):
+        ch = chr(cp)
+        c = (ch.isspace(), ch.isdecimal(), ch.isalnum())
+        e = combo.get(c)
+        if e is None:
+            combo[c] = [cp, 1]
+        else:
+            e[1] += 1
+    for c, (cp, cnt) in combo.items():
+        ch = chr(cp)
+        k = tuple(member(ch, s) for s in sets)
+        if k not in sig:
+            sig[k] = cp
+            size[k] = 0
+        size[k] += cnt
     reps = sorted(sig.values())
     inv = {v: k for k, v in sig.items()}
     matrix = [[bool(x) for x in inv[cp]] for cp in reps]
